@@ -11,12 +11,37 @@ import (
 
 const urlBase = "http://site.example/"
 
-func letterOf(u string) string { return strings.TrimPrefix(u, urlBase) }
+// urlOf: the URL of a letter. The letters a, b, c, d ... are spelt /a, /A, /b, /B ...: consecutive letters
+// differ only in the case of one path character, so any URL identity coarser than string equality (case
+// folding, a shortened key) merges two different URLs and shows as a lost URL.
+func urlOf(letter string) string {
+	i := int(letter[0] - 'a')
+	name := string(rune('a' + i/2))
+	if i%2 == 1 {
+		name = strings.ToUpper(name)
+	}
+	return urlBase + name + letter[1:]
+}
+
+func letterOf(u string) string {
+	name := strings.TrimPrefix(u, urlBase)
+	if name == "" {
+		return name
+	}
+	c := name[0]
+	i := 0
+	if c >= 'A' && c <= 'Z' {
+		i = 2*int(c-'A') + 1
+	} else {
+		i = 2 * int(c-'a')
+	}
+	return string(rune('a'+i)) + name[1:]
+}
 
 // newItem builds a real item the way the stages do (NewItem + a parsed URL;
 // in Zeno the preprocessor's NormalizeURL does the parsing).
 func newItem(id, letter string) *models.Item {
-	u := &models.URL{Raw: urlBase + letter}
+	u := &models.URL{Raw: urlOf(letter)}
 	if err := u.Parse(); err != nil {
 		panic(err)
 	}
@@ -60,13 +85,13 @@ func build(s snap) *world {
 		id := fmt.Sprintf("n%d", i)
 		items[i] = newItem(id, n.U)
 		if n.P < 0 {
-			ref.n = append(ref.n, rnode{id: id, url: urlBase + n.U, parent: -1})
+			ref.n = append(ref.n, rnode{id: id, url: urlOf(n.U), parent: -1})
 			continue
 		}
 		if err := items[n.P].AddChild(items[i], models.ItemGotChildren); err != nil {
 			panic(err)
 		}
-		ref.addChild(fmt.Sprintf("n%d", n.P), id, urlBase+n.U, stGotChildren)
+		ref.addChild(fmt.Sprintf("n%d", n.P), id, urlOf(n.U), stGotChildren)
 	}
 	for i, n := range s {
 		items[i].SetStatus(models.ItemState(n.S))
